@@ -1,1 +1,1 @@
-
+import NiflyXform.C20
